@@ -13,13 +13,16 @@ RULE = ("seeded call histories (length 2..10) over the query API of the three fo
         "in both modes, route decoding) interleaved with 0..2 runs of the feasibility heuristic, biased to 'query ... heuristic ... query', plus a "
         "systematic stream with every (formulation, query kind) pair as the only query before a heuristic run that must change the instance; each "
         "history is run on a twin object without the queries that precede the heuristic and the full observable state afterwards is compared; "
+        "the flag-level model (one function per method, the code's reset sites, partial state after a raise) is stepped through the same history "
+        "and compared call by call: reply, the three / four flags after the call, final graph, vehicles, stored solution — including a stream of "
+        "histories in which the heuristic raises midway and the half-updated object is used further; "
         "every query is issued twice; non-trivial = history with a query before a heuristic run that changes the instance (adds an arc / node / "
         "vehicle / route); distinct = distinct (instance, history)")
 ASSUMPTIONS = [
     "observable state = variable count and list, index maps on a tuple box, objective and constraint data, QUBO (both modes), stored feasible solution, routes decoded from it",
     "the path-based route sampler is re-seeded identically for both twins (its randomness is C17's subject)",
 ]
-PARTIAL = ["the Lean cache machine has the query kinds size / objective / constraints; index lookups, QUBO and route decoding are compositions of these in the real code and are covered by the twin-run oracle"]
+PARTIAL = ["route decoding is not an operation of the flag-level machine (it reads no cache); the path-based object keeps no caches and is covered by the twin-run oracle only"]
 TRUSTED = ["C14 sequence-based reset-site theorem assumes unique node names (guaranteed by add_node; refuted in Lean without it)"]
 BUDGET_S = {"quick": 150, "thorough": 1500}
 QUERIES = ["n", "idx", "tup", "obj", "con", "qubo_o", "qubo_f", "routes"]
@@ -52,6 +55,22 @@ def gen(rng, tier):
                 case.update(strict=rng.random() < 0.3, V=rng.choice([1, info["V"]]), L=max(3, info["Lmin"] + rng.choice([0, 1])))
             case["hist"] = [[q], ["heur", rng.choice(["10", "1000"])]] + [[x] for x in QUERIES]
             case["systematic"] = True
+            yield case
+            continue
+        if k % 20 == 7:
+            # raising stream: instances on which the heuristic is expected to raise midway (a time grid that lacks the arrival times /
+            # a strict object whose depot window closes early); the history continues on the half-updated object
+            spec, info = VU.gen_planted(rng, ncust=rng.randint(2, 3), extra_arc_p=0.2, wide=True)
+            dep = spec["nodes"][0]["name"]
+            c = rng.choice([nd["name"] for nd in spec["nodes"][1:]])
+            spec["arcs"] = [a for a in spec["arcs"] if not (a[0] == dep and a[1] == c)]
+            if (k // 20) % 2 == 0:
+                case = dict(form="arc", spec=spec, seed=rng.randrange(10 ** 6), grid=info["grid"][:1])
+            else:
+                spec["nodes"][0]["hi"] = rng.choice(["0", "1"])
+                case = dict(form="seq", spec=spec, seed=rng.randrange(10 ** 6), strict=True, V=1, L=max(3, info["Lmin"]))
+            q1, q2 = rng.choice(QUERIES[:7]), rng.choice(QUERIES[:7])
+            case["hist"] = [[q1], ["heur", "10"], [q2], ["heur", "10"]] + [[x] for x in QUERIES[:7]]
             yield case
             continue
         if k % 3 == 0:
@@ -174,6 +193,172 @@ def correspond_cache(res, drv, case):
         res.disagree(f"{form} stored solution after the history", isol, msolv)
 
 
+def _dense(triples, rows, cols):
+    M = [[Fraction(0)] * cols for _ in range(rows)]
+    for i, j, v in triples:
+        if i < rows and j < cols:
+            M[i][j] += v
+        else:
+            return None
+    return M
+
+
+def correspond_flags(res, drv, case):
+    """the flag-level model (VrpModel/CacheFlags.lean: one function per Python method, reset sites at the code's program points,
+    partial state after a raise) against the real object, operation by operation: reply, the flags after every call, and at the end
+    graph, vehicles and stored solution.  The history continues after a raising heuristic."""
+    form = case["form"]
+    if form not in ("arc", "seq"):
+        return
+    import random
+    rnd = random.Random(case.get("seed", 0))
+    o, _ = FU.build_form(case, with_heur=False)
+    inst = FU.inst_tokens(o, form)
+    ops, impl = [], []
+
+    def flags():
+        if form == "arc":
+            return [o.variables_enumerated, o.objective_built, o.constraints_built]
+        return [o.variables_enumerated, o.objective_built, o.lin_con_built, o.quad_con_built]
+    for op in case["hist"]:
+        kind = op[0]
+        try:
+            if kind == "n":
+                ops.append("n")
+                out = ("n", int(o.get_num_variables()))
+            elif kind == "idx":
+                vm = list(o.var_mapping) if o.variables_enumerated and len(o.var_mapping) and rnd.random() < 0.6 else None
+                box = tuple_box(o, form)
+                if not vm and not box:
+                    continue        # no tuple inside the index ranges exists (out-of-range arguments are outside the lookup model)
+                u = tuple(rnd.choice(vm)) if vm else rnd.choice(box)
+                if form == "arc":
+                    ops.append(f"idx {int(u[0])} {fs(F(u[1]))} {int(u[2])} {fs(F(u[3]))}")
+                else:
+                    ops.append(f"idx {int(u[0])} {int(u[1])} {int(u[2])}")
+                r = o.get_var_index(*u)
+                out = ("idx", None if r is None else int(r))
+            elif kind == "tup":
+                n_now = int(o.num_variables) if o.variables_enumerated else 0
+                k = rnd.choice([0, max(n_now - 1, 0), n_now, n_now + 2])
+                ops.append(f"tup {k}")
+                r = o.get_var_tuple_index(k)
+                out = ("tup", None if r is None else tuple(F(t) if isinstance(t, float) else int(t) for t in r))
+            elif kind == "obj":
+                ops.append("obj")
+                c, Q = o.get_objective_data()
+                Qd = Q.toarray() if hasattr(Q, "toarray") else np.asarray(Q)
+                out = ("obj", [F(x) for x in np.asarray(c).ravel()], [[F(x) for x in row] for row in Qd])
+            elif kind == "con":
+                ops.append("con")
+                A, b, R, r_ = o.get_constraint_data()
+                Ad = A.toarray() if hasattr(A, "toarray") else np.asarray(A)
+                Rd = R.toarray() if hasattr(R, "toarray") else np.asarray(R)
+                out = ("con", [[F(x) for x in row] for row in Ad.reshape(len(b), -1)] if len(b) else [], [F(x) for x in np.asarray(b).ravel()],
+                       [[F(x) for x in row] for row in Rd], tuple(int(t) for t in Ad.shape))
+            elif kind in ("qubo_o", "qubo_f"):
+                feas = kind == "qubo_f"
+                ops.append(f"qubo {1 if feas else 0} none")
+                Q, k, shape = VU.qubo_dense(o, feas, None)
+                out = ("qubo", int(shape[0]), k, sum((x for row in Q for x in row), Fraction(0)))
+            elif kind == "heur":
+                ops.append(f"heur {op[1]}")
+                np.random.seed(case.get("seed", 0))
+                o.make_feasible(VU.val(op[1]))
+                out = ("heur", "ok")
+            else:
+                continue
+        except Exception as e:  # noqa
+            out = (kind if kind not in ("qubo_o", "qubo_f") else "qubo", "raised", core.err_kind(e))
+        impl.append((out, [int(bool(x)) for x in flags()]))
+    if not ops:
+        return
+    rep = drv.ask(f"flags.{form} {inst} {len(ops)} {' '.join(ops)}")
+    if not rep.startswith("ok "):
+        res.disagree("flags command", "ok", rep[:120])
+        return
+    parts = [p.strip() for p in rep[3:].split(" | ")]
+    groups = parts[:len(ops)]
+    for step, (g_, (out, fl_)) in enumerate(zip(groups, impl)):
+        dig, _, mfl = g_.partition(" ; flags ")
+        tk = dig.split()
+        what = f"{form} flag machine, call #{step} `{ops[step]}`"
+        if [int(t) for t in mfl.split()] != fl_:
+            res.disagree(what + ": flags after the call", fl_, mfl)
+            return
+        if out[1:2] == ("raised",):
+            if not (len(tk) >= 3 and tk[1] == "raised" and tk[2] == out[2]) and not (tk[1:2] == [out[2]]):
+                res.disagree(what + ": raised", out[2], dig[:80])
+                return
+            continue
+        if "raised" in tk[:2] or (len(tk) > 1 and tk[1].startswith("err:")):
+            res.disagree(what + ": status", "normal return", dig[:80])
+            return
+        if out[0] == "n" and int(tk[1]) != out[1]:
+            res.disagree(what, out[1], tk[1])
+        elif out[0] == "idx" and (None if tk[1] == "none" else int(tk[1])) != out[1]:
+            res.disagree(what, out[1], tk[1])
+        elif out[0] == "tup":
+            m = None if tk[1] == "none" else tuple(Fraction(t) for t in tk[1:])
+            if m != (None if out[1] is None else tuple(Fraction(t) for t in out[1])):
+                res.disagree(what, out[1], tk[1:])
+        elif out[0] in ("obj", "con"):
+            secs = [x.split() for x in dig[len(out[0]):].split(" ; ")]
+            t0 = MU.Toks(secs[0])
+            if out[0] == "obj":
+                mc = t0.lst(lambda: Fraction(t0.tok()))
+                if form == "seq":
+                    t1 = MU.Toks(secs[1])
+                    tri = t1.lst(lambda: (t1.nat(), t1.nat(), Fraction(t1.tok())))
+                    side = int(secs[2][0])
+                    mQ = _dense(tri, side, side)
+                else:
+                    side = int(secs[1][0])
+                    mQ = [[Fraction(0)] * side for _ in range(side)]
+                if mc != out[1] or mQ != out[2]:
+                    res.disagree(what, (out[1], len(out[2])), (mc, side))
+            else:
+                tri = t0.lst(lambda: (t0.nat(), t0.nat(), Fraction(t0.tok())))
+                t1 = MU.Toks(secs[1])
+                mb = t1.lst(lambda: Fraction(t1.tok()))
+                if form == "seq":
+                    t2 = MU.Toks(secs[2])
+                    pairs = t2.lst(lambda: (t2.nat(), t2.nat(), Fraction(1)))
+                    rows, cols, side = (int(t) for t in secs[3][:3])
+                    mR = _dense(pairs, side, side)
+                else:
+                    rows, cols, side = (int(t) for t in secs[2][:3])
+                    mR = [[Fraction(0)] * side for _ in range(side)]
+                mA = _dense(tri, rows, cols)
+                iA = out[1] if out[1] else []
+                if mb != out[2] or (mA or []) != iA or mR != out[3] or ((rows, cols) != out[4] and len(out[2]) > 0):
+                    res.disagree(what, (out[2], out[4]), (mb, (rows, cols)))
+        elif out[0] == "qubo":
+            if tk[1] != "ok" or int(tk[2]) != out[1] or Fraction(tk[4]) != out[2] or Fraction(tk[5]) != out[3]:
+                res.disagree(what, out[1:], tk[1:])
+        if res.disagreements:
+            return
+    k = next(i for i, p in enumerate(parts) if p.startswith("final "))
+    mg = MU.parse_graph(MU.Toks(parts[k][6:].split()))
+    g = VU.graph_of(o)
+    if (g["nodes"], g["arcs"]) != (mg["nodes"], mg["arcs"]):
+        res.disagree(f"{form} flag machine: graph after the history", [a for a in g["arcs"] if a not in mg["arcs"]][:3], [a for a in mg["arcs"] if a not in g["arcs"]][:3])
+    if form == "seq":
+        tv = parts[k + 1].split()
+        if int(tv[0]) != int(o.max_vehicles) or [Fraction(t) for t in tv[2:]] != [F(c) for c in o.vehicle_cost]:
+            res.disagree("seq flag machine: vehicles after the history", (int(o.max_vehicles), [fs(F(c)) for c in o.vehicle_cost]), tv)
+    msol = parts[-1].split()
+    isol = None if o.feasible_solution is None else [F(v) for v in np.asarray(o.feasible_solution).ravel()]
+    msolv = None if msol == ["none"] else [Fraction(t) for t in msol[1:]]
+    if isol != msolv:
+        res.disagree(f"{form} flag machine: stored solution after the history", isol, msolv)
+    res.features.append("flag-machine:compared")
+    if any(x[0][1:2] == ("raised",) for x in impl):
+        res.features.append("flag-machine:some-call-raised")
+        if impl[-1][0][1:2] != ("raised",):
+            res.features.append("flag-machine:history-continued-after-raise")
+
+
 def run_case(case, drv):
     res = Result(key=core.case_key(case))
     form = case["form"]
@@ -191,6 +376,7 @@ def run_case(case, drv):
         return res
     if sa != "ok":
         res.nontrivial = False
+        correspond_flags(res, drv, case)      # the flag-level model follows the object through a raising heuristic
         return res
     A, Bst = full_state(oa, form), full_state(ob, form)
     for key in A:
@@ -220,4 +406,5 @@ def run_case(case, drv):
             break
     res.nontrivial = query_before and changed
     correspond_cache(res, drv, case)
+    correspond_flags(res, drv, case)
     return res
